@@ -7,6 +7,7 @@ is an all-null placeholder; nothing is deleted; a plain reap of an incomplete cr
 XYZError and leaves the tree untouched; growing the rest and reaping is exact.
 """
 import os
+import time
 import shutil
 import itertools
 
@@ -40,6 +41,7 @@ MIN_REACH = {
     "locations_used_before_by_another_crop": {"quick": 10, "thorough": 100},
     "partial_reaps_racing_with_the_last_grower": {"quick": 10, "thorough": 100},
     "cases_reaped_through_a_handle_older_than_the_sow": {"quick": 8, "thorough": 80},
+    "crops_whose_batch_files_are_newer_than_the_results": {"quick": 10, "thorough": 100},
 }
 TIME_BUDGET = {"quick": 400, "thorough": 3400}
 CASE_TIMEOUT = {"quick": 300, "thorough": 900}
@@ -208,6 +210,13 @@ def run_case(ctx, case):
     for i, p in rfiles.items():
         shutil.move(p, os.path.join(stash, os.path.basename(p)))
 
+    if case["idx"] % 4 == 1:
+        # the batch files carry LATER timestamps than the results (sown on a machine whose clock runs ahead, copied or
+        # touched by a sync tool, an identical re-sow after growing): a batch is finished iff its result file exists
+        later = time.time() + 3600
+        for p in files.values():
+            os.utime(p, (later, later))
+        ctx.count("crops_whose_batch_files_are_newer_than_the_results")
     req = cropkit.requested_settings(w)
     swept = (w["names"] or []) + [a for a, _ in w["combos"]]
     if case.get("sample_subsets") and B > 10:
